@@ -106,6 +106,35 @@ Theorem C01_v2_nonce32_refuted : forall O, laws O -> forall key enc m f r,
             v2_local_unseal O key enc p f [] = Ok (drop 24 r ++ m) /\ drop 24 r ++ m <> m.
 Proof. exact v2_nonce_32_refuted. Qed.
 
+(* ---- ... and composed with real backends: for v4 (RustCrypto) and v3 (aws-lc) local tokens the whole API path
+        returns the claims and footer that went in, whatever 32 bytes the random source serves ---- *)
+Theorem C01_v4_local_end_to_end : forall O, laws O ->
+  forall (Claims Foot : Type) (m_suffix : bytes) (m_encode : Claims -> option bytes) (m_decode : bytes -> option Claims)
+         (f_encode : Foot -> option bytes) (f_decode : bytes -> option Foot) (validate : Claims -> result unit)
+         draw hdr pur key c fv aad r body fb,
+  draw_exact draw -> draw 32 = Some r ->
+  m_encode c = Some body -> m_decode body = Some c -> f_encode fv = Some fb -> f_decode fb = Some fv ->
+  validate c = Ok tt ->
+  exists tok,
+    seal (v4_local_seal O) m_suffix m_encode f_encode key c fv aad (v4_local_nonce draw) = Ok tok /\
+    parse_token f_decode hdr m_suffix pur (print_token hdr m_suffix pur tok) = Ok (tok, fv) /\
+    fst (unseal (v4_local_unseal O) m_suffix m_decode validate key tok fv aad) = Ok (c, fv).
+Proof. intros O L Claims Foot. exact (@v4_local_end_to_end O L Claims Foot). Qed.
+Theorem C01_v3_awslc_local_end_to_end : forall O, laws O ->
+  forall (Claims Foot : Type) (m_suffix : bytes) (m_encode : Claims -> option bytes) (m_decode : bytes -> option Claims)
+         (f_encode : Foot -> option bytes) (f_decode : bytes -> option Foot) (validate : Claims -> result unit)
+         draw hdr pur key c fv aad r body fb,
+  draw_exact draw -> draw 32 = Some r ->
+  m_encode c = Some body -> m_decode body = Some c -> f_encode fv = Some fb -> f_decode fb = Some fv ->
+  validate c = Ok tt ->
+  exists tok,
+    seal (lc_local_seal O) m_suffix m_encode f_encode key c fv aad (lc_local_nonce draw) = Ok tok /\
+    parse_token f_decode hdr m_suffix pur (print_token hdr m_suffix pur tok) = Ok (tok, fv) /\
+    fst (unseal (lc_local_unseal O) m_suffix m_decode validate key tok fv aad) = Ok (c, fv).
+Proof. intros O L Claims Foot. exact (@lc_local_end_to_end O L Claims Foot). Qed.
+
+Print Assumptions C01_v4_local_end_to_end.
+Print Assumptions C01_v3_awslc_local_end_to_end.
 Print Assumptions C01_v1_local.
 Print Assumptions C01_v2_local.
 Print Assumptions C01_v3_local.
